@@ -63,6 +63,9 @@ struct Recorded {
     recs: Vec<RecAt>,
     hist: Vec<String>,
     mode: grafeo_engine::config::DurabilityMode,
+    /// durability calls (sync / wal_checkpoint / close) that returned Ok although the last record
+    /// logged so far was not covered by any fsync of its file: (call, step)
+    uncovered: Vec<(String, usize)>,
 }
 
 /// Run one history and record the timeline.
@@ -85,6 +88,8 @@ fn record(seed: u64, case: u64, steps: usize) -> Option<Recorded> {
     let mut hist = vec![format!("mode={} tiny_log={tiny}", c05::mode_name(&mode))];
     let mut kinds = BTreeSet::new();
     let mut durable_step = 0usize;
+    let mut uncovered: Vec<(String, usize)> = Vec::new();
+    let mut rotated_since_last_record = false;
     // step 0: freshly opened, empty
     instants.push(Instant { dir: read_dir(&wal_dir), synced: synced.clone(), spec: Model::default(), durable_step: 0, n_recs: 0, what: "open".into() });
     let mut ok = true;
@@ -95,12 +100,13 @@ fn record(seed: u64, case: u64, steps: usize) -> Option<Recorded> {
         // process, few writes in between): the same draw is mapped onto a denser set of such calls
         let roll = r.below(20);
         let roll = if case % 3 == 2 { match roll { 0..=3 => 0, 4 | 5 => 1, 6..=8 => 2, _ => 10 } } else { roll };
+        let mut call_ok = false;
         let (kind, durable_call) = if last && r.chance(0.5) {
-            let _ = db.close();
+            call_ok = db.close().is_ok();
             hist.push("close()".into());
             (StepKind::Close, true)
         } else if roll == 0 {
-            let _ = db.wal_checkpoint();
+            call_ok = db.wal_checkpoint().is_ok();
             hist.push("wal_checkpoint()".into());
             (StepKind::Checkpoint, true)
         } else if roll == 1 {
@@ -111,7 +117,7 @@ fn record(seed: u64, case: u64, steps: usize) -> Option<Recorded> {
             (StepKind::Other, false)
         } else if roll <= 3 {
             if let Some(w) = db.wal() {
-                let _ = w.sync();
+                call_ok = w.sync().is_ok();
             }
             hist.push("wal.sync()".into());
             (StepKind::Other, true)
@@ -156,6 +162,10 @@ fn record(seed: u64, case: u64, steps: usize) -> Option<Recorded> {
                         }
                     };
                     recs.push(RecAt { file, start, end, rec });
+                    rotated_since_last_record = false;
+                }
+                "wal.rotate" => {
+                    rotated_since_last_record = true;
                 }
                 "wal.sync" => {
                     let cur = synced.entry(e.1).or_insert(0);
@@ -169,6 +179,13 @@ fn record(seed: u64, case: u64, steps: usize) -> Option<Recorded> {
         }
         if durable_call {
             durable_step = step;
+            // client-boundary monitor: when the call returned Ok, every record logged so far must be
+            // covered by an fsync of its file (the only thing that makes "durable" true on a crash)
+            // (a rotation after the last record leaves it in an outgoing file, which rotate() does not
+            // fsync - finding V4 - so only the active file is judged here)
+            if call_ok && !rotated_since_last_record && let Some(lastrec) = recs.last() && synced.get(&lastrec.file).copied().unwrap_or(0) < lastrec.end {
+                uncovered.push((hist.last().cloned().unwrap_or_default(), step));
+            }
         }
         instants.push(Instant {
             dir: read_dir(&wal_dir),
@@ -190,7 +207,7 @@ fn record(seed: u64, case: u64, steps: usize) -> Option<Recorded> {
     if !ok {
         return None;
     }
-    Some(Recorded { instants, recs, hist, mode })
+    Some(Recorded { instants, recs, hist, mode, uncovered })
 }
 
 /// A crash image: for every log file present a prefix length; which checkpoint.meta bytes.
@@ -370,6 +387,13 @@ fn run_history(rep: &mut Report, rules: Rules, seed: u64, case: u64, steps: usiz
     let mut r = Rng::new(seed, "C06.img", case);
     rep.count("histories", 1);
     rep.count(&format!("histories.mode.{}", c05::mode_name(&rec.mode)), 1);
+    rep.count("durability_calls_checked_for_fsync_coverage", rec.instants.iter().filter(|i| i.what.starts_with("wal.sync") || i.what.starts_with("wal_checkpoint") || i.what.starts_with("close")).count() as u64);
+    for (call, step) in &rec.uncovered {
+        rep.deviation(
+            &format!("durability:{}_returned_ok_but_last_logged_record_not_fsynced", call.split('(').next().unwrap_or("")),
+            json!({"history": rec.hist, "step": step, "mode": c05::mode_name(&rec.mode)}),
+        );
+    }
     let mut nontrivial_images = 0;
     for k in 0..rec.instants.len() {
         let imgs = images_for(&rec, k, &mut r, budget);
@@ -461,7 +485,7 @@ pub fn run(tier: Tier, seed: u64) -> ! {
     let mut rep = Report::new("C06", tier, seed, "fault_enumeration");
     rep.rule = "per history (direct-API mutations, checkpoints, rotations incl. size-triggered, syncs, optional close; every durability mode) the WAL directory bytes, per-file fsync coverage (wal.sync hook events) and the reference state are recorded after every step; crash images per instant: all written bytes, only synced bytes, each file alone cut to its synced length, cuts at and inside the last three records of every file (torn length prefix / payload / checksum), old checkpoint.meta with complete or torn .tmp, freshly rotated file absent, single-bit flips in record payload/checksum. Each image is opened with the real engine: open must succeed, the dump must be a prefix state no older than the last sync/checkpoint/close (any prefix for corruption), and a quarter of the images are continued (write, close, reopen: the new writes must be there, ids must not collide). non-trivial image = cut strictly inside a record, metadata mid-update, per-file loss, or bit flip; distinct by (history, instant, cuts, flip)".into();
     let rules = Rules::from_findings(&rep.findings);
-    let n = tier.pick(12, 100);
+    let n = tier.pick(30, 150);
     for case in 0..n {
         run_history(&mut rep, rules, seed, case, tier.pick(12, 24), tier.pick(24, 80));
     }
